@@ -222,7 +222,8 @@ def judge(plan, segments, queries, fresh):
       continue
     if name == "restart":
       epoch[0] += 1
-    if name in ("persist_reload", "restart", "heal", "curve_op"):
+    if name in ("persist_reload", "restart", "heal", "curve_op",
+                "reimport_version"):
       continue
     if name == "bad_call":
       probe("bad_call_raised" if _raised(ev["ret"]) else "bad_call_returned")
